@@ -340,7 +340,10 @@ class FakeSnowflakeCursor:
                     self._conn.schema = None
                     self._conn.schema_set = False
 
-        if table_comment := cast(tuple[exp.Table, str], transformed.args.get("table_comment")):
+        if (
+            table_comment := cast(tuple[exp.Table, str], transformed.args.get("table_comment"))
+            # a create with properties other than a comment (eg: transient, cluster by) has no comment to record
+        ) and table_comment[1] is not None:
             # record table comment
             table, comment = table_comment
             catalog = table.catalog or self._conn.database
